@@ -31,6 +31,9 @@ func runC14(c *mon.Ctx) {
 		if i%150 == 0 {
 			c14ManyStrings(c, r.Fork(77))
 		}
+		if i%50 == 0 {
+			c14ImmediateClose(c, r.Fork(78))
+		}
 	})
 }
 
@@ -596,4 +599,35 @@ func c14Token(c *mon.Ctx, r *mon.Rand) {
 		desc["trace"] = trace
 		c.Sample(desc)
 	}
+}
+
+// c14ImmediateClose: Close right after construction, on one P, so that the
+// reporter's goroutines have not run yet when Close is called: when Close has
+// returned none of them may exist any more.
+func c14ImmediateClose(c *mon.Ctx, r *mon.Rand) {
+	prev := runtime.GOMAXPROCS(1)
+	defer runtime.GOMAXPROCS(prev)
+	for k := 0; k < 10; k++ {
+		before := m3Goroutines()
+		opts := m3.Options{Service: "s", Env: "e", MaxQueueSize: []int{1, 64, 4096}[r.Intn(3)], HostPorts: []string{mon.DeadPort()}}
+		if r.Bool() {
+			opts.Protocol = m3.Binary
+		}
+		rep, err := m3.NewReporter(opts)
+		if err != nil {
+			c.Inconclusive("NewReporter: " + err.Error())
+			return
+		}
+		if r.Bool() {
+			rep.AllocateCounter("c", nil).ReportCount(1)
+		}
+		if err := rep.Close(); err != nil {
+			c.Violation("close-error", map[string]interface{}{"why": fmt.Sprintf("Close right after construction returned %v", err)})
+		}
+		if alive := m3Goroutines() - before; alive > 0 {
+			c.Violation("m3-goroutine-alive-when-close-returned", map[string]interface{}{"why": fmt.Sprintf("Close was called right after NewReporter (one P: the reporter's goroutines had not run yet) and returned while %d of them still existed", alive)})
+		}
+		c.Event("immediate-m3-closes", 1)
+	}
+	c.Eval(1)
 }
